@@ -45,7 +45,8 @@ fi
 # run the check against it
 git -C /repo apply "$src/patch.diff" || { echo "EVAL-ERROR apply to /repo"; exit 2; }
 start=$(date +%s)
-(cd "$VERIF" && ./run.sh "$prop" "$tier" > "$W/.check.log" 2>&1); rc=$?
+# evidence of a run on a changed tree never lands in /verif/evidence
+(cd "$VERIF" && VERIF_EVIDENCE_DIR="$W/.evidence" ./run.sh "$prop" "$tier" > "$W/.check.log" 2>&1); rc=$?
 end=$(date +%s)
 git -C /repo checkout -- . ; git -C /repo clean -fdq
 viol="$(grep -m1 '^VIOLATION' "$W/.check.log")"
